@@ -25,6 +25,7 @@ PROPS = {
             sub("solve", "c11_matrix", 4000, 150000),
             sub("threads", "c11_matrix", 300, 6000, qw=1, tw=2),
             sub("vecops", "c11_matrix", 8000, 300000),
+            sub("subsample", "c11_matrix", 8000, 300000),
         ]),
     "C16": dict(
         level="exploration",
